@@ -254,6 +254,12 @@ def run_fixed(desc):
         expect_valueerror('Path.glob absolute pattern', lambda: list(rp.glob('/a')))
         expect_valueerror('Path.rglob absolute pattern', lambda: list(rp.rglob('/a')))
         expect_valueerror('Path.glob absolute pattern in list', lambda: list(rp.glob(['a', root + '/a'])))
+        # ... also when the absolute pattern only appears after BRACE / SPLIT expansion
+        expect_valueerror('Path.glob absolute alternative (BRACE)', lambda: list(rp.glob('{' + root + '/a,b}/*', flags=G.BRACE)))
+        expect_valueerror('Path.glob absolute alternative (BRACE, empty first)', lambda: list(rp.glob('{,/}a*', flags=G.BRACE)))
+        expect_valueerror('Path.glob absolute piece (SPLIT)', lambda: list(rp.glob('a*|' + root + '/a*', flags=G.SPLIT)))
+        expect_valueerror('Path.rglob absolute piece (SPLIT)', lambda: list(rp.rglob('a*|/a*', flags=G.SPLIT)))
+        expect_valueerror('Path.rglob absolute alternative (BRACE)', lambda: list(rp.rglob('{x,/y}', flags=G.BRACE)))
         expect_valueerror('PureWindowsPath REALPATH', lambda: WP.PureWindowsPath('a').globmatch('a', flags=G.REALPATH))
         expect_valueerror('PureWindowsPath match REALPATH', lambda: WP.PureWindowsPath('a').match('a', flags=G.REALPATH))
         # user-supplied FORCEWIN / FORCEUNIX are ignored: the class decides
